@@ -26,6 +26,7 @@ import (
 const mutSyscalls = "openat,open,creat,write,pwrite64,writev,pwritev,renameat,renameat2,rename,unlinkat,unlink,rmdir,ftruncate,truncate,mkdirat,mkdir,fchmodat,chmod,fchmod,linkat,link,symlinkat,symlink,fallocate,copy_file_range,sendfile"
 
 type mutTracer struct {
+	onLine func(name, rest string) // called for every finished traced syscall, before it is counted
 	cmd    *exec.Cmd
 	rd     *os.File
 	models string
@@ -50,9 +51,20 @@ var mutAttachedRE = regexp.MustCompile(`attached with (\d+) threads`)
 // every thread it starts later), so the number of threads strace reports is compared with the number the process
 // has afterwards and the attach is repeated when they differ.
 func startMutTracer(pid int, models string, n int, kill func()) (t *mutTracer, err error) {
+	return startTracer(pid, models, n, kill, "", 0, nil)
+}
+
+// startPauseTracer holds the caller of every finished syscall of the given set for delayUs microseconds and tells
+// onLine about it first: the harness can act inside the pause (C03: pull another model right after a blob was renamed
+// into place, before the thread that renamed it goes on).
+func startPauseTracer(pid int, models, syscalls string, delayUs int, onLine func(name, rest string)) (*mutTracer, error) {
+	return startTracer(pid, models, 0, nil, syscalls, delayUs, onLine)
+}
+
+func startTracer(pid int, models string, n int, kill func(), syscalls string, delayUs int, onLine func(name, rest string)) (t *mutTracer, err error) {
 	for try := 0; try < 4; try++ {
 		var all bool
-		t, all, err = startMutTracerOnce(pid, models, n, kill)
+		t, all, err = startMutTracerOnce(pid, models, n, kill, syscalls, delayUs, onLine)
 		if err != nil || all {
 			return t, err
 		}
@@ -61,14 +73,19 @@ func startMutTracer(pid int, models string, n int, kill func()) (t *mutTracer, e
 	return nil, fmt.Errorf("strace could not attach to every thread of the server")
 }
 
-func startMutTracerOnce(pid int, models string, n int, kill func()) (*mutTracer, bool, error) {
+func startMutTracerOnce(pid int, models string, n int, kill func(), syscalls string, delayUs int, onLine func(name, rest string)) (*mutTracer, bool, error) {
 	pr, pw, err := os.Pipe()
 	if err != nil {
 		return nil, false, err
 	}
-	args := []string{"-f", "-y", "-p", fmt.Sprint(pid), "-o", "/dev/fd/3", "-e", "trace=" + mutSyscalls}
+	if syscalls == "" {
+		syscalls = mutSyscalls
+	}
+	args := []string{"-f", "-y", "-p", fmt.Sprint(pid), "-o", "/dev/fd/3", "-e", "trace=" + syscalls}
 	if n > 0 {
-		args = append(args, "-e", "inject="+mutSyscalls+":delay_exit=6000")
+		args = append(args, "-e", "inject="+syscalls+":delay_exit=6000")
+	} else if delayUs > 0 {
+		args = append(args, "-e", fmt.Sprintf("inject=%s:delay_exit=%d", syscalls, delayUs))
 	}
 	cmd := exec.Command("strace", args...)
 	cmd.ExtraFiles = []*os.File{pw}
@@ -80,7 +97,7 @@ func startMutTracerOnce(pid int, models string, n int, kill func()) (*mutTracer,
 		return nil, false, err
 	}
 	pw.Close()
-	t := &mutTracer{cmd: cmd, rd: pr, models: models, n: n, kill: kill, done: make(chan struct{})}
+	t := &mutTracer{cmd: cmd, rd: pr, models: models, n: n, kill: kill, onLine: onLine, done: make(chan struct{})}
 	go t.read()
 	deadline := time.Now().Add(5 * time.Second)
 	for time.Now().Before(deadline) {
@@ -123,6 +140,9 @@ func (t *mutTracer) read() {
 			name, rest = m[2], m[3]
 		} else {
 			continue
+		}
+		if t.onLine != nil {
+			t.onLine(name, rest)
 		}
 		if cls, ok := t.mutation(name, rest); ok {
 			t.mu.Lock()
